@@ -75,7 +75,9 @@
 (* time cannot advance beyond that while the worker is still waiting       *)
 (* (Tick is disabled).  A configuration update restarts the count: the     *)
 (* wait in progress may have begun under the old waiting time.  A waiting  *)
-(* time <= 0 demands nothing.                                              *)
+(* time <= 0 is a wait of no length: it is measured in periods of          *)
+(* MinPeriod.  Whatever the waiting time, a wait that begins with a record *)
+(* queued returns that record (WIdle): the queue path makes progress.      *)
 (*                                                                         *)
 (* The sender is created without a context, with a context alone, or with  *)
 (* a context and its cancel function (ctxk); it is stopped through its own *)
@@ -99,6 +101,7 @@ VARIABLES
   mode,        \* "none" (not created) | "queue" (worker goroutine) | "direct" (no queue, no worker)
   ctxk,        \* what the creator passed: "none" | "ctx" (a context, no cancel function) | "both"
   ticks,       \* full reference periods passed since the worker's timed wait (or the waiting time in force) began
+  wq0,         \* a record was queued when the worker's timed wait in progress began (FALSE outside a wait)
   settings,    \* the four settings in force
   configured,  \* has anything (explicit creation settings, ApplyConfig) overridden the defaults?
   queue,       \* records waiting for the worker
@@ -117,7 +120,7 @@ VARIABLES
   emitted,     \* packs handed to the client, in hand-over order
   stopped      \* "no" | "cancelling" (cancel called, not yet returned) | "stopping" (context cancelled)
 
-vars == <<mode, ctxk, ticks, settings, configured, queue, accB, refused, mem, blen, live, count, firstTime, wpc, wcur, wret,
+vars == <<mode, ctxk, ticks, wq0, settings, configured, queue, accB, refused, mem, blen, live, count, firstTime, wpc, wcur, wret,
           dactive, dq, drid, accD, emitted, stopped>>
 
 -----------------------------------------------------------------------------
@@ -167,7 +170,7 @@ Content(p) == IF p.view = <<>> THEN p.snap ELSE SubSeq(mem[p.view[1]], 1, p.view
 
 -----------------------------------------------------------------------------
 Init ==
-  /\ mode = "none" /\ ctxk = "none" /\ ticks = 0 /\ settings = Defaults /\ configured = FALSE
+  /\ mode = "none" /\ ctxk = "none" /\ ticks = 0 /\ wq0 = FALSE /\ settings = Defaults /\ configured = FALSE
   /\ queue = <<>> /\ accB = <<>> /\ refused = {}
   /\ mem = << <<>> >> /\ blen = 0 /\ live = <<>> /\ count = 0 /\ firstTime = 0
   /\ wpc = "off" /\ wcur = <<>> /\ wret = "off"
@@ -178,7 +181,7 @@ Init ==
 \* ck = what is passed as context
 New(m, given, s, ck) ==
   /\ mode = "none" /\ m \in {"queue", "direct"} /\ ck \in {"none", "ctx", "both"}
-  /\ mode' = m /\ ctxk' = ck /\ UNCHANGED ticks
+  /\ mode' = m /\ ctxk' = ck /\ UNCHANGED <<ticks, wq0>>
   /\ wpc' = IF m = "queue" THEN "top" ELSE "off"
   /\ IF given THEN settings' = s /\ configured' = TRUE
      ELSE IF Creation = "zeroed" THEN settings' = Zeroed /\ UNCHANGED configured
@@ -190,7 +193,7 @@ New(m, given, s, ck) ==
 ApplyConfig(g) ==
   /\ mode # "none"
   /\ settings' = Resolve(g) /\ configured' = TRUE /\ ticks' = 0
-  /\ UNCHANGED <<mode, ctxk, queue, accB, refused, mem, blen, live, count, firstTime, wpc, wcur, wret,
+  /\ UNCHANGED <<mode, ctxk, wq0, queue, accB, refused, mem, blen, live, count, firstTime, wpc, wcur, wret,
                  dactive, dq, drid, accD, emitted, stopped>>
 
 QueueHasRoom == settings.qCap <= 0 \/ Len(queue) < settings.qCap
@@ -201,7 +204,7 @@ Add(r) ==
   /\ IF QueueHasRoom
        THEN queue' = Append(queue, r) /\ accB' = (IF r.ok THEN Append(accB, r) ELSE accB) /\ UNCHANGED refused
        ELSE refused' = refused \cup {r.id} /\ UNCHANGED <<queue, accB>>
-  /\ UNCHANGED <<mode, ctxk, ticks, settings, configured, mem, blen, live, count, firstTime, wpc, wcur, wret,
+  /\ UNCHANGED <<mode, ctxk, ticks, wq0, settings, configured, mem, blen, live, count, firstTime, wpc, wcur, wret,
                  dactive, dq, drid, accD, emitted, stopped>>
 
 \* the stop request: cancel() is called ... and has returned
@@ -212,11 +215,11 @@ StopCall(via) ==
   /\ \/ via = "own"
      \/ via = "given" /\ ctxk = "both"
      \/ via = "parent" /\ ctxk \in {"ctx", "both"}
-  /\ UNCHANGED <<mode, ctxk, ticks, settings, configured, queue, accB, refused, mem, blen, live, count, firstTime, wpc, wcur, wret,
+  /\ UNCHANGED <<mode, ctxk, ticks, wq0, settings, configured, queue, accB, refused, mem, blen, live, count, firstTime, wpc, wcur, wret,
                  dactive, dq, drid, accD, emitted>>
 StopRet ==
   /\ stopped = "cancelling" /\ stopped' = "stopping"
-  /\ UNCHANGED <<mode, ctxk, ticks, settings, configured, queue, accB, refused, mem, blen, live, count, firstTime, wpc, wcur, wret,
+  /\ UNCHANGED <<mode, ctxk, ticks, wq0, settings, configured, queue, accB, refused, mem, blen, live, count, firstTime, wpc, wcur, wret,
                  dactive, dq, drid, accD, emitted>>
 
 -----------------------------------------------------------------------------
@@ -232,7 +235,8 @@ GoFlush(ret) == IF live = <<>> THEN wpc' = ret /\ UNCHANGED wret
                 ELSE wpc' = "flush" /\ wret' = ret
 
 wOnly == <<mode, ctxk, settings, configured, accB, refused, dactive, dq, drid, accD, stopped>>
-wRest == <<wOnly, ticks>>
+wRest == <<wOnly, ticks, wq0>>
+wRest0 == <<wOnly, ticks>>       \* ... of the steps that end a timed wait (wq0 is about the wait in progress only)
 
 \* the select: st = the stop state at the moment of the select; a completed cancellation is seen,
 \* no cancellation is not; saw = the branch taken
@@ -242,7 +246,7 @@ WTop(saw, st) ==
   /\ IF ~saw THEN wpc' = "get" /\ UNCHANGED wret
      ELSE IF StopPolicy = "drain" THEN wpc' = "drain" /\ UNCHANGED wret
      ELSE GoFlush("fin")
-  /\ ticks' = 0
+  /\ ticks' = 0 /\ wq0' = (~saw /\ queue # <<>>)
   /\ UNCHANGED <<queue, mem, blen, live, count, firstTime, wcur, emitted>> /\ UNCHANGED wOnly
 
 \* the timed wait returned the head of the queue
@@ -250,19 +254,27 @@ WTake ==
   /\ wpc \in {"get", "drain"} /\ queue # <<>>
   /\ wcur' = <<Head(queue)>> /\ queue' = Tail(queue)
   /\ wpc' = "app" /\ wret' = IF wpc = "get" THEN "top" ELSE "drain"
-  /\ UNCHANGED <<mem, blen, live, count, firstTime, emitted>> /\ UNCHANGED wRest
+  /\ wq0' = FALSE
+  /\ UNCHANGED <<mem, blen, live, count, firstTime, emitted>> /\ UNCHANGED wRest0
 
-\* the timed wait expired (decided at its last poll: no guard on the queue)
-WIdle ==
+\* the timed wait expired.  It is decided at the wait's last look at the queue, so a record that a producer puts
+\* while the wait is in progress may stay behind (no guard on the queue as it is now); but a record that was
+\* queued when the wait BEGAN is what the wait returns, whatever the waiting time in force (zero and negative
+\* included: the wait looks at the queue at least once): the wait cannot expire then.  sure = every Add counted
+\* in `queue' when the wait began had returned (always so in the design, where Add is one step; a recorded
+\* history knows it only while no producer can be running)
+WIdle(sure) ==
   /\ wpc = "get"
+  /\ sure => ~wq0
+  /\ wq0' = FALSE
   /\ GoFlush("top")
-  /\ UNCHANGED <<queue, mem, blen, live, count, firstTime, wcur, emitted>> /\ UNCHANGED wRest
+  /\ UNCHANGED <<queue, mem, blen, live, count, firstTime, wcur, emitted>> /\ UNCHANGED wRest0
 
 \* Append(r) called from outside (no worker owns the buffer)
 AppendCall(r) ==
   /\ mode = "direct" /\ wpc = "off"
   /\ wcur' = <<r>> /\ accB' = (IF r.ok THEN Append(accB, r) ELSE accB) /\ wpc' = "app" /\ wret' = "off"
-  /\ UNCHANGED <<mode, ctxk, ticks, settings, configured, queue, refused, mem, blen, live, count, firstTime,
+  /\ UNCHANGED <<mode, ctxk, ticks, wq0, settings, configured, queue, refused, mem, blen, live, count, firstTime,
                  dactive, dq, drid, accD, emitted, stopped>>
 
 \* the record cannot be encoded: it is refused -- nothing written, nothing counted, back to where the append came from
@@ -320,7 +332,7 @@ DirectBegin(rs) ==
   /\ mode # "none" /\ ~dactive
   /\ dactive' = TRUE /\ dq' = rs /\ accD' = accD \o Good(rs)
   /\ mem' = Append(mem, <<>>) /\ drid' = Len(mem) + 1
-  /\ UNCHANGED <<mode, ctxk, ticks, settings, configured, queue, accB, refused, blen, live, count, firstTime, wpc, wcur, wret,
+  /\ UNCHANGED <<mode, ctxk, ticks, wq0, settings, configured, queue, accB, refused, blen, live, count, firstTime, wpc, wcur, wret,
                  emitted, stopped>>
 
 \* how much of rs the next pack consumes: up to and including the (encodable) record that reaches the limit;
@@ -340,7 +352,7 @@ DSend(k) ==
         /\ mem' = [mem EXCEPT ![drid] = WriteAt(@, 0, Encoding(b))]
         /\ emitted' = Append(emitted, Pack("d", b, Len(b), drid, SumSize(b), k))
         /\ dq' = SubSeq(dq, n + 1, Len(dq))
-  /\ UNCHANGED <<mode, ctxk, ticks, settings, configured, queue, accB, refused, blen, live, count, firstTime, wpc, wcur, wret,
+  /\ UNCHANGED <<mode, ctxk, ticks, wq0, settings, configured, queue, accB, refused, blen, live, count, firstTime, wpc, wcur, wret,
                  dactive, drid, accD, stopped>>
 
 \* the call meets a record that cannot be encoded before the pack in progress is complete and gives up there: the
@@ -350,26 +362,26 @@ DirectAbort ==
   /\ \E i \in 1..PrefixLen(dq, 1, 0) : ~dq[i].ok
   /\ dactive' = FALSE /\ dq' = <<>>
   /\ accD' = SubSeq(accD, 1, Len(accD) - Len(Good(dq)))
-  /\ UNCHANGED <<mode, ctxk, ticks, settings, configured, queue, accB, refused, mem, blen, live, count, firstTime, wpc, wcur, wret,
+  /\ UNCHANGED <<mode, ctxk, ticks, wq0, settings, configured, queue, accB, refused, mem, blen, live, count, firstTime, wpc, wcur, wret,
                  drid, emitted, stopped>>
 
 \* the call returns: nothing encodable is left
 DirectEnd ==
   /\ dactive /\ Good(dq) = <<>>
   /\ dactive' = FALSE /\ dq' = <<>>
-  /\ UNCHANGED <<mode, ctxk, ticks, settings, configured, queue, accB, refused, mem, blen, live, count, firstTime, wpc, wcur, wret,
+  /\ UNCHANGED <<mode, ctxk, ticks, wq0, settings, configured, queue, accB, refused, mem, blen, live, count, firstTime, wpc, wcur, wret,
                  drid, accD, emitted, stopped>>
 
 -----------------------------------------------------------------------------
 (* real time: one full reference period p of the waiting time in force has passed *)
 RefPeriod == IF settings.maxWait < MinPeriod THEN MinPeriod ELSE settings.maxWait
-Waiting   == mode = "queue" /\ wpc = "get" /\ settings.maxWait > 0
+Waiting   == mode = "queue" /\ wpc = "get"
 
 Tick(p) ==
   /\ mode # "none"
   /\ IF Waiting THEN ticks < IdleSlack /\ p = RefPeriod /\ ticks' = ticks + 1
      ELSE UNCHANGED ticks          \* nobody is inside a timed wait: time just passes
-  /\ UNCHANGED <<mode, ctxk, settings, configured, queue, accB, refused, mem, blen, live, count, firstTime, wpc, wcur, wret,
+  /\ UNCHANGED <<mode, ctxk, wq0, settings, configured, queue, accB, refused, mem, blen, live, count, firstTime, wpc, wcur, wret,
                  dactive, dq, drid, accD, emitted, stopped>>
 
 -----------------------------------------------------------------------------
